@@ -120,7 +120,7 @@ def run(ctx):
         if len(g1) >= 2:
             simple.append((g1, None))        # a vector squares to a scalar
         for kx, sq in simple:
-            for dtype in ('float', 'int', 'complex', 'ndarray', 'sympy'):
+            for dtype in ('float', 'int', 'complex', 'ndarray', 'sympy', 'np.float64', '1d-array-values'):
                 if ctx.quick and rng.random() < 0.4:
                     continue
                 coeffs = [rng.choice([1, 2, -1, 3]) / rng.choice([1, 2, 4]) for _ in kx]
@@ -132,9 +132,14 @@ def run(ctx):
                     vals = [np.array([c, 2 * c]) for c in coeffs]
                 elif dtype == 'sympy':
                     vals = [sympy.Symbol(f't{i}', real=True) for i in range(len(kx))]
+                elif dtype == 'np.float64':         # np.float64 IS a python float (subclass): what indexing an array-valued multivector hands out; other numpy scalar types
+                    # (np.int64, np.float32) are outside the stated domain of exp and are not demanded
+                    vals = [np.float64(c) for c in coeffs]
+                elif dtype == '1d-array-values':    # the coefficients given as one 1-d array: each coefficient is a numpy scalar
+                    vals = np.array([float(c) for c in coeffs])
                 else:
                     vals = [float(c) for c in coeffs]
-                x = MultiVector.fromkeysvalues(alg, tuple(kx), list(vals))
+                x = MultiVector.fromkeysvalues(alg, tuple(kx), vals if dtype == '1d-array-values' else list(vals))
                 case = {'sig': sig, 'op': 'exp', 'kx': kx, 'dtype': dtype, 'values': [str(v) for v in vals]}
                 ctx.case(case, tag=f'exp:{dtype}')
                 try:
